@@ -57,6 +57,7 @@ type Sim struct {
 	Start    time.Time
 
 	goids     map[int64]string
+	asTaskSeq int
 	live      int // foreground tasks not yet finished
 	draining  bool
 	drainFlag atomic.Bool // race mode: read by every poller (loads do not synchronise with each other)
@@ -227,6 +228,27 @@ func (s *Sim) taskOfGoroutine() string {
 	s.mu.Lock()
 	defer s.mu.Unlock()
 	return s.goids[g]
+}
+
+// AsTask runs f with the calling goroutine registered under a harness task name (user code that the code under test
+// calls and that calls back into it: its lock passes are the application's, not the library's own).
+func (s *Sim) AsTask(name string, f func()) {
+	g := goid()
+	s.mu.Lock()
+	prev, had := s.goids[g]
+	s.asTaskSeq++
+	s.goids[g] = fmt.Sprintf("%s#%d", name, s.asTaskSeq)
+	s.mu.Unlock()
+	defer func() {
+		s.mu.Lock()
+		if had {
+			s.goids[g] = prev
+		} else {
+			delete(s.goids, g)
+		}
+		s.mu.Unlock()
+	}()
+	f()
 }
 
 // Task is a harness goroutine with a stable name.
